@@ -4,13 +4,16 @@
 #[global_allocator]
 static ALLOC: simcore::alloc::SimAlloc = simcore::alloc::SimAlloc;
 
+mod c01;
 mod c12;
 mod c14;
 mod c20;
 mod c26;
 mod c27;
 mod fields;
+mod genair;
 mod merkle;
+mod protocol;
 mod sched;
 mod streams;
 
@@ -30,6 +33,7 @@ pub fn exh_index(total: u64) -> u64 {
 
 fn main() {
     let mut scs = Vec::new();
+    scs.extend(c01::scenarios());
     scs.extend(c12::scenarios());
     scs.extend(c14::scenarios());
     scs.extend(merkle::scenarios());
